@@ -34,6 +34,11 @@ CHECKS = {
   technique="runtime monitoring: per-request flow/log trace recorded at the ServeHTTP boundary, checked offline against a reference Fastly state machine + cache model that replays the program's declared actions",
   text="Generated programs (all single deviations from the default path x entry branch, all restart-loop forms, pairs/triples of deviations, 3-request histories over URL and TTL classes, rate-counter/penalty-box persistence) are served by one real Interpreter through ServeHTTP; flows[].subroutine (cross-checked with an independent log-statement trace), restarts, error, cached, X-Cache and X-Cache-Hits of every reply must equal the reference machine's path, restart count (<=3, fourth restart = reported error), exactly-one-final-vcl_log and hit/miss branch. Exhaustive over single deviations and restart forms; pairs complete in thorough.",
   note="Trusts the reference table transcribed from the Fastly lifecycle documentation (successor per (scope, action), pass never stores, object enters the cache at the end of vcl_fetch); undocumented situations are accepted as long as they do not crash and are counted separately in the evidence."),
+ "C18": dict(
+  category="exploration", design_ref="DESIGN.md §4 C18",
+  technique="Go race detector over repeated concurrent workloads + linearizability checking (porcupine v1.3.0) of client-boundary call/return histories + marker-isolation and exactly-once monitors",
+  text="A race-detector build of the worker serves many short concurrent histories (2-16 clients, colliding cache keys, pass/error/restart/rate-counter/penalty-box classes, origin jitter, GOMAXPROCS 1/2/4/16) from one real Interpreter behind httptest.NewServer; every reply must contain only its own marker and its class's flow/restart count, the recorded history must be linearizable against a per-key sequential cache model, a fetch-and-add rate counter and a penalty-box set, and the race detector must report nothing with a falco frame. Real plugin executables (2-4 per statement, 0-5 ms delays) must have every diagnostic reported exactly once.",
+  note="Covers only the interleavings the scheduler produced in these runs (counted in the evidence as overlap patterns); porcupine timeouts and transport errors are inconclusive; -race runs with checkptr instrumentation off because the transpiled PCRE trips it."),
 }
 
 NOT_APPLICABLE = {}
